@@ -149,6 +149,8 @@ struct bed : central_listener
     unsigned                    enc_req_event = 0;
     bool                        first_instant_heard = false;
     bool                        invalid_connect_ind = false;
+    bool                        update_owed = false;
+    std::uint16_t               update_instant = 0;
     bool                        instant_pending = false;    // set by the driver: a PDU with an instant is on its way or waiting
 
     // procedure response timeout bookkeeping (C27)
@@ -273,6 +275,13 @@ struct bed : central_listener
         if ( ll->end_events != ee )
             life.truth_first_event();
 
+        // the connection update was applied when the event counter of the next event reached the instant
+        if ( update_owed && cen.in_connection && static_cast< std::int16_t >( static_cast< std::uint16_t >( ll->connection_event_counter() - update_instant ) ) >= 0 )
+        {
+            update_owed = false;
+            life.changes_now_due( "connection_update", cen.event_no == last_event_no ? event_pdus_this_event : 0 );
+        }
+
         // receive ring can not take a PDU although the link layer had its turn, and nothing is transmitted
         if ( cen.in_connection && ll->rx_no_buffer != rx_no_buffer_seen && ll->next_received().size != 0 )
             ++stall_events;
@@ -346,6 +355,7 @@ struct bed : central_listener
         resp.reset_connection();
         event_pdus_this_event = 0;
         version_event_counted = false;
+        update_owed = false;
         first_instant_heard = false;
         instant_pending = false;
         remote_reason_22 = false;
@@ -382,6 +392,8 @@ struct bed : central_listener
             if ( instant_pending && kl == p.size() && ( p[ 0 ] == LL_ENC_REQ || p[ 0 ] == LL_START_ENC_RSP || p[ 0 ] == LL_PAUSE_ENC_REQ || p[ 0 ] == LL_PAUSE_ENC_RSP ) )
                 enc.tainted = true;
 
+            const bool legit_before = enc.legit;
+
             if ( p[ 0 ] == LL_ENC_REQ && p.size() == 23 )
             {
                 std::uint64_t rand = 0; for ( unsigned i = 0; i < 8; ++i ) rand |= static_cast< std::uint64_t >( p[ 1 + i ] ) << ( 8 * i );
@@ -391,6 +403,25 @@ struct bed : central_listener
             else if ( p[ 0 ] == LL_START_ENC_RSP && p.size() == 1 ) enc.start_enc_rsp( event == enc_req_event );
             else if ( p[ 0 ] == LL_PAUSE_ENC_REQ && p.size() == 1 ) enc.pause_enc_req();
             else if ( p[ 0 ] == LL_PAUSE_ENC_RSP && p.size() == 1 ) enc.pause_enc_rsp();
+
+            // ground truth for ll_connection_changed: the encryption state of the link really changes
+            if ( enc.tainted )
+                life.changes_unreliable = true;
+            else if ( enc.legit != legit_before )
+                life.truth_change( enc.legit ? "encryption_on" : "encryption_off", event_pdus_this_event, true );
+        }
+
+        // ... and the connection parameters change at the instant of a connection update
+        if ( p[ 0 ] == LL_CONNECTION_UPDATE_IND && p.size() == 12 )
+        {
+            const std::uint16_t instant = static_cast< std::uint16_t >( rd16( p, 10 ) );
+            if ( static_cast< std::int16_t >( static_cast< std::uint16_t >( instant - ll->connection_event_counter() ) ) > 0 && !update_owed )
+            {
+                update_owed = true; update_instant = instant;
+                life.truth_change( "connection_update", 0, false );
+            }
+            else
+                life.changes_unreliable = true;     // passed instant / second update before the first one's instant
         }
 
         if ( p[ 0 ] == LL_TERMINATE_IND && p.size() == 2 )
@@ -593,6 +624,12 @@ struct bed : central_listener
             {
                 resp.quiescent();
                 if ( info.security ) enc.quiescent();
+
+                // what the link layer reports as encryption state has to be what the model expects, otherwise (C28) no
+                // statement about changes is possible
+                if ( info.security && Cfg::rec().enc_probe && Cfg::rec().enc_probe() != enc.legit )
+                    life.changes_unreliable = true;
+                life.changes_settled();
                 return true;
             }
         }
